@@ -32,7 +32,15 @@ and C12L files among the built files).  It draws from its OWN PRNG (derived from
   free   positions FREE, started AT the truth on an exact scene: the returned x, y, flux must equal the truth
          (check_free_case, 2^-FREE_BITS relative).
 
-Measured on the unchanged code (seeds 0..5, 600 scenes each): see TOL_* below.
+Tolerances.  The fitter is an iterative trust-region Gauss-Newton (scipy least_squares 'trf') with a FORWARD-DIFFERENCE
+Jacobian (relative step sqrt(eps)) and gtol = 1e-8 on a problem that is linear in the fluxes: its answer is not exact.
+Measured on the unchanged code (seeds 0..3 of the generator, ~2400 group fits): the worst normal-equation residual is
+2^-32.2 * scale for arbitrary data and 2^-33.5 * scale for exact scenes; the rendered fluxes are recovered within
+2^-34.5 (|f*|_1 + 1)(1 + |G^-1 row|_1); started at the truth with free positions the truth is returned bit for bit (49 scenes).
+Tolerances used: 2^-22 (arbitrary data), 2^-26 (exact scenes), 2^-24 (recovery), 2^-30 (free positions).
+
+PRECONDITION of the tie (decided on the inputs): the exact least-squares flux of every source fitted alone is positive,
+like the initial guess (see the comment at the place; observation C12L-O1).
 
 Model/code disagreements -> `correspondence:C12L_Model...` (found_input=False) unless the plain-Python Fraction oracle
 shows that a clause of the C12 text is violated (recovery of a rendered scene, flux scaling, single = grouped for isolated
@@ -56,7 +64,7 @@ SC = 16                # positions are multiples of 1/16
 TOL_GENERAL = 22       # bits: normal equations, arbitrary data
 TOL_EXACT = 26         # bits: normal equations, exact scenes
 TOL_RECOVER = 24       # bits: recovery of the rendered fluxes
-FREE_BITS = 20         # bits: positions free, started at the truth
+FREE_BITS = 30         # bits: positions free, started at the truth (measured: the truth is returned bit for bit)
 SCALES = [2.0, 0.5, 3.0, -1.0, 1.5, 1024.0, 0.875]
 
 
@@ -458,7 +466,7 @@ def run_flux_correspondence(ctx, n_cases):
            'skipped_nonpositive_ls_flux': 0}
     n_free = max(4, n_cases // 10)
     terms, kept = [], []
-    budget_full = max(6, n_cases // 2)
+    budget_full = 10 ** 9        # the exact in-Coq solve is cheap on the integer-rescaled problem: every group of <= 3 sources
     for _ in range(n_cases):
         c = gen_scene(rng)
         if not scene_valid(c):
